@@ -1636,4 +1636,187 @@ Proof.
     + apply HS_ev, HS_ev, A.
 Qed.
 
+(* ---- input.read(buf).await outside poll_input: Request::record_boundary, Token::parse_request ---- *)
+Lemma await_read_inv k p q raw out : forall fuel sel L w, Q k p q raw out (wlog w) [] (segs w) ->
+  (forall E ge gm bb rest, flat E = [] -> segs w = E ++ (ge, gm, bb) :: rest -> bb <> [] -> gate_met (counts (wlog w)) ge gm) ->
+  match await_read fuel sel L w with
+  | Ok (inl b) w' => Q k p q raw out (wlog w') b (segs w')
+  | Ok (inr _) w' => Q k p q raw out (wlog w') [] (segs w')
+  | Halt o _ => o <> ODeadlock
+  end.
+Proof.
+  induction fuel as [|f IH]; intros sel L w HI HG; [cbn [await_read]; discriminate|]. cbn [await_read].
+  destruct (t_poll_read L w) as [pr w1] eqn:ET. pose proof (t_poll_read_segs _ _ _ _ ET) as S2.
+  destruct (t_poll_read_rem _ _ _ _ ET) as (T1 & _). destruct pr as [[b|e]| |]; cbv beta iota in S2.
+  - rewrite T1. destruct S2 as [(-> & E0 & HF & HS)|(E0 & ge & gm & bb & rest & n & HF & HS & Hbb & Hb & HS' & Hm)].
+    + rewrite HS in HI. apply (Q_skip _ _ _ _ _ _ _ E0 _ HF HI).
+    + rewrite HS in HI. rewrite HS', Hb. apply (Q_read _ _ _ _ _ _ E0); [exact HF|exact Hbb|apply Hm|exact HI].
+  - rewrite T1. destruct S2 as (E0 & HF & HS). rewrite HS in HI. apply (Q_skip _ _ _ _ _ _ _ E0 _ HF HI).
+  - unfold on_wake. destruct (sel && stopped (w_bump w1)); [discriminate|].
+    destruct S2 as (E0 & HF & HS). apply IH.
+    + change (wlog (w_bump w1)) with (wlog w1). change (segs (w_bump w1)) with (segs w1). rewrite T1.
+      rewrite HS in HI. apply (Q_skip _ _ _ _ _ _ _ E0 _ HF HI).
+    + intros E ge gm bb rest HF' HS' Hbb. change (wlog (w_bump w1)) with (wlog w1). change (segs (w_bump w1)) with (segs w1) in HS'.
+      rewrite T1. apply (HG (E0 ++ E) ge gm bb rest); [rewrite flat_map_app, HF, HF'; reflexivity| |exact Hbb].
+      rewrite HS, HS', app_assoc. reflexivity.
+  - exfalso. destruct S2 as (E0 & ge & gm & bb & rest & HF & HS & Hbb & Hn). apply Hn. apply (HG E0 ge gm bb rest HF HS Hbb).
+Qed.
+
+Lemma HS_mk p1 wr lk ab w : pinv p1 -> bytes_ok (remaining w) -> no_fault (wscript w) ->
+  SQ (abs p1) (wlog w) [] (segs w) -> wholeF (wlog w) -> wholeF (output_buffer p1) -> HS (mkR p1 wr lk ab) w.
+Proof.
+  intros H1 H2 H3 H4 H5 H6. split; [exact H1|]. split; [exact H2|]. split; [exact H3|]. split; [exact H4|]. split; [exact H5|exact H6].
+Qed.
+
+Lemma sparse_none_stop p new p' s : pinv p -> sparse maxc p new None = StOk p' s ->
+  stuck (abs p') \/ is_record_boundary p' = true.
+Proof.
+  intros [HRI _] E. destruct (sparse_refines maxc p new None HRI) as [Ga _]. rewrite E in Ga. cbn [absres] in Ga.
+  apply (aparse_none_stop maxc (abs p) new (abs p') s Ga).
+Qed.
+
+(* Request::record_boundary: a read inside the skip loop happens strictly inside a record, hence inside a segment
+   the client has already opened *)
+Lemma boundary_loop_hs : forall fuel new r w,
+  pinv (rsp r) -> bytes_ok new -> len new <= sinput_space (rsp r) -> bytes_ok (remaining w) -> no_fault (wscript w) ->
+  inv2 r w new -> wl r w ->
+  match boundary_loop maxc fuel new r w with
+  | Ok (_, r') w' => HS r' w'
+  | Halt o _ => o <> ODeadlock
+  end.
+Proof.
+  induction fuel as [|f IH]; intros new r w Hinv Hnew Hfit Hrem Hnf HI HWL; [cbn [boundary_loop]; discriminate|].
+  rewrite ConnWrites.boundary_loop_S.
+  pose proof (sparse_step maxc (rsp r) new None Hinv Hnew Hfit ltac:(intros H; contradiction)) as SS.
+  pose proof (sparse_walk (rsp r) new None Hinv Hnew) as SW.
+  assert (PARSED : forall p1 s, sparse_ok maxc (rsp r) new None p1 s ->
+            (exists o, output_buffer p1 = output_buffer (rsp r) ++ o /\ whole o /\
+                       forall u, W (abs (rsp r)) (new ++ u) = padd (snd (counts o)) (W (abs p1) u)) ->
+            pinv p1 /\ SQ (abs p1) (wlog w) [] (segs w) /\ wholeF (output_buffer p1)).
+  { intros p1 s SO (o & Eo & Ho & L). split; [apply (so_inv _ _ _ _ _ _ SO)|].
+    split; [apply (SQ_sparse (rsp r) new p1 o _ _ Eo Ho L HI)|]. rewrite Eo. apply wholeF_app; [apply HWL|apply whole_F, Ho]. }
+  assert (AFTER : forall p1 s, sparse_ok maxc (rsp r) new None p1 s ->
+            (exists o, output_buffer p1 = output_buffer (rsp r) ++ o /\ whole o /\
+                       forall u, W (abs (rsp r)) (new ++ u) = padd (snd (counts o)) (W (abs p1) u)) ->
+            (stuck (abs p1) \/ is_record_boundary p1 = true) ->
+            match ConnWrites.bl_after maxc f r w p1 with
+            | Ok (_, r') w' => HS r' w'
+            | Halt o _ => o <> ODeadlock
+            end).
+  { intros p1 s SO SW1 Hstop. destruct (PARSED p1 s SO SW1) as ([RI1 A1] & I1 & WL1).
+    unfold ConnWrites.bl_after. cbv zeta. destruct (is_record_boundary p1) eqn:Eb.
+    { apply HS_mk; try assumption; [split; assumption|apply HWL]. }
+    destruct Hstop as [ST|Hc]; [|discriminate Hc].
+    destruct (compress_views p1 RI1) as (V1 & V2 & V3 & V4 & V5 & V6).
+    pose proof (compress_abs p1 RI1) as CA.
+    assert (I2 : pinv (compress p1)) by (split; [exact V1|rewrite CA; apply compress_inv; exact A1]).
+    assert (Q2 : SQ (abs (compress p1)) (wlog w) [] (segs w)) by (rewrite CA; exact I1).
+    assert (GATE : forall E ge gm bb rest, flat E = [] -> segs w = E ++ (ge, gm, bb) :: rest -> bb <> [] ->
+              gate_met (counts (wlog w)) ge gm).
+    { intros E ge gm bb rest HF HS Hbb. unfold SQ in I1. rewrite HS in I1.
+      refine (Q_block_mid _ _ _ _ _ _ E ge gm bb rest HF Hbb _ I1).
+      destruct (stuck_W _ ST) as [_ H]. unfold W in H. rewrite app_nil_r in H. apply H. exact Eb. }
+    pose proof (await_read_inv _ _ _ _ _ (io_fuel w 0) false (sinput_space (compress p1)) w Q2 GATE) as AR.
+    pose proof (await_read_rem (io_fuel w 0) false (sinput_space (compress p1)) w) as RM.
+    destruct (await_read (io_fuel w 0) false (sinput_space (compress p1)) w) as [[b|k] w1|o w1]; [| |exact AR].
+    - destruct RM as (R1 & R2 & R3 & R4 & _). rewrite R3 in Hrem. apply bytes_ok_app in Hrem. destruct b as [|x b].
+      + apply HS_mk; [exact I2|apply Hrem|rewrite R2; exact Hnf|exact AR|rewrite R1; apply HWL|rewrite V4; exact WL1].
+      + apply IH; [exact I2|apply Hrem|exact R4|apply Hrem|rewrite R2; exact Hnf|exact AR|].
+        split; [rewrite R1; apply HWL|cbn [rsp]; rewrite V4; exact WL1].
+    - destruct RM as (R1 & R2 & R3 & _).
+      apply HS_mk; [exact I2|rewrite R3; exact Hrem|rewrite R2; exact Hnf|exact AR|rewrite R1; apply HWL|rewrite V4; exact WL1]. }
+  destruct (sparse maxc (rsp r) new None) as [p1 s|p1 e s|n] eqn:ESP; [| |discriminate].
+  - apply (AFTER p1 s); [apply SS|exact SW|apply (sparse_none_stop (rsp r) new p1 s Hinv ESP)].
+  - destruct SS as (SO & He & _).
+    assert (ERR : HS (mkR p1 (rwriteable r) (rlock r) (raborted r)) w).
+    { destruct (PARSED p1 s SO SW) as (J1 & J2 & J3). apply HS_mk; try assumption. apply HWL. }
+    destruct e; try exact ERR.
+    apply (AFTER p1 s SO SW). right. apply (err_at_boundary _ _ He).
+Qed.
+
+Lemma record_boundary_hs r w : HS r w ->
+  match record_boundary maxc r w with
+  | Ok (_, r') w' => HS r' w'
+  | Halt o _ => o <> ODeadlock
+  end.
+Proof.
+  intros H. unfold record_boundary. destruct (is_record_boundary (rsp r)); [exact H|].
+  destruct H as (H1 & H2 & H3 & H4 & H5). apply boundary_loop_hs; try assumption; [constructor|rewrite len_nil; lia].
+Qed.
+
+(* ---- Request::close ---- *)
+(* what holds between requests: [new] are bytes read but not yet fed to the request parser *)
+Definition PS (p : parser) (w : world) (new : bytes) : Prop :=
+  bytes_ok (remaining w) /\ no_fault (wscript w) /\
+  Q (sk (st p)) (sprem (st p)) (spad (st p)) (held p) [] (wlog w) new (segs w).
+
+Lemma hdr0_F s id : wholeF (hdr_encode s id 0 0).
+Proof.
+  exists [mkRcd s id [] []]. split; [constructor; [|constructor]; split; vm_compute; reflexivity|].
+  unfold enc_rcds, enc_rcd, enc_rcd_rsv, hdr_encode. cbn [flat_map rt rid rbody rpad app]. reflexivity.
+Qed.
+
+Lemma end_F app ps id : wholeF (end_record app ps id).
+Proof.
+  exists [mkRcd RT_EndRequest id (end_encode app ps) []]. split; [constructor; [|constructor]; split; vm_compute; reflexivity|].
+  cbn [enc_rcds flat_map]. rewrite app_nil_r. reflexivity.
+Qed.
+
+Lemma epilogue_F id disc code streams ep : epilogue id disc code streams = Some ep -> wholeF ep.
+Proof.
+  unfold epilogue. destruct (exit_to_end disc code) as [[app ps]|]; [|discriminate]. intros E. injection E as <-.
+  apply wholeF_app; [|apply end_F]. induction streams as [|s t IH]; [apply wholeF_nil|].
+  cbn [flat_map]. apply wholeF_app; [apply hdr0_F|exact IH].
+Qed.
+
+Lemma close_tail_hs r1 disc code w1 : HS r1 w1 ->
+  match close_tail maxc r1 disc code w1 with
+  | Ok (inl rp) w' => PS rp w' []
+  | Ok (inr _) _ => True
+  | Halt o _ => o <> ODeadlock
+  end.
+Proof.
+  intros H. rewrite close_tail_unfold.
+  destruct (set_stream (rsp r1) None) as [p2| |] eqn:E; [|discriminate|discriminate].
+  pose proof (record_boundary_hs _ w1 (set_stream_hs r1 w1 None p2 (rwriteable r1) (rlock r1) (raborted r1) H E)) as RB.
+  destruct (record_boundary maxc (mkR p2 (rwriteable r1) (rlock r1) (raborted r1)) w1) as [[[k2|] r3] w2|o w2];
+    [exact I| |exact RB].
+  pose proof (close_finish_spec r3 disc code w2) as CF.
+  destruct (epilogue (r_id (sreq (rsp r3))) disc code (if rwriteable r3 then ROLE_OUTPUT_STREAMS else [])) as [ep|] eqn:Eep;
+    [|rewrite CF; discriminate].
+  destruct (close_finish r3 disc code w2) as [[rp|k] w'|o w']; unfold cf_post in CF; cbv zeta in CF.
+  - destruct CF as ((Hsame & Hlog & Hsuf & _) & Hconv & _). unfold wlog_ext in Hlog.
+    destruct RB as ([RI3 A3] & R2 & R3 & R4 & [R5 R6]).
+    split; [rewrite (same_but_io_remaining _ _ Hsame); exact R2|]. split; [apply (no_fault_suffix _ _ Hsuf R3)|].
+    assert (Hsegs : segs w' = segs w2) by apply Hsame.
+    destruct (close_p4_spec r3) as (Hsp & Ho4 & _). destruct (sp_same_views _ _ Hsp) as (_ & V2 & _ & V4 & _).
+    assert (RI4 : RI (close_p4 r3)).
+    { unfold close_p4. destruct (output_buffer (rsp r3)); [exact RI3|apply consume_output_RI; exact RI3]. }
+    pose proof (into_request_parser_refines (close_p4 r3) RI4) as IR. rewrite Hconv in IR. cbn [absconv] in IR.
+    unfold ainto_request_parser in IR. change (a_boundary (abs (close_p4 r3))) with (is_record_boundary (close_p4 r3)) in IR.
+    rewrite V4 in IR. destruct (is_record_boundary (rsp r3)) eqn:Eb; cbn [negb] in IR; [|discriminate IR].
+    destruct (negb (len (a_out (abs (close_p4 r3))) =? 0)); [discriminate IR|]. injection IR as <-. cbn [st held sk sprem spad].
+    change (a_raw (abs (close_p4 r3))) with (raw_bytes (close_p4 r3)). rewrite V2, Hlog, Hsegs.
+    unfold is_record_boundary in Eb. apply andb_true_iff in Eb. destruct Eb as [Ep Eq]. apply N.eqb_eq in Ep. apply N.eqb_eq in Eq.
+    unfold inv2, SQ in R4. cbn [abs a_st a_prem a_pad a_raw a_out] in R4. rewrite Ep, Eq in R4.
+    apply (Q_pos (kst (sst (rsp r3))) 0 0 false 0 0); [intros x; apply WK_k0|].
+    rewrite app_assoc. apply Q_log; [apply wholeF_app; assumption|apply wholeF_nil|apply (epilogue_F _ _ _ _ _ Eep)|].
+    apply (Q_flush _ _ _ _ (output_buffer (rsp r3)) _ _ _ (output_buffer (rsp r3)) []); [symmetry; apply app_nil_r|exact R4].
+  - exact I.
+  - destruct o; try contradiction; discriminate.
+Qed.
+
+Lemma do_close_hs r disc code w : HS r w ->
+  match do_close maxc r disc code w with
+  | Ok (inl rp) w' => PS rp w' []
+  | Ok (inr _) _ => True
+  | Halt o _ => o <> ODeadlock
+  end.
+Proof.
+  intros H. unfold do_close. pose proof (do_writeable_hs r w H) as DW.
+  destruct (do_writeable maxc r w) as [[[k|] r1] w1|o w1]; [| |exact DW].
+  - destruct ((k =? EK_Aborted) && raborted r1); [apply close_tail_hs; exact DW|exact I].
+  - apply close_tail_hs; exact DW.
+Qed.
+
 End Layers.
